@@ -60,9 +60,10 @@ type NodeDevice struct {
 
 // ArchiveDecoder is used to decode a catar archive.
 type ArchiveDecoder struct {
-	d    FormatDecoder
-	dir  string
-	last interface{}
+	d     FormatDecoder
+	dir   string
+	last  interface{}
+	depth int // number of directories that haven't been closed with a goodbye
 }
 
 // NewArchiveDecoder initializes a decoder for a catar archive.
@@ -155,7 +156,15 @@ loop:
 				break loop
 			}
 			a.dir = filepath.Dir(a.dir)
+			if a.depth > 0 {
+				a.depth--
+			}
 		case nil:
+			// The end of the stream is only the end of the archive if it's not
+			// in the middle of a node and all directories are complete
+			if entry != nil || name != "" || a.depth > 0 {
+				return nil, io.ErrUnexpectedEOF
+			}
 			return nil, nil
 
 		default:
@@ -166,6 +175,7 @@ loop:
 	// If it doesn't have a payload or is a device/symlink, it must be a directory
 	if payload == nil && device == nil && symlink == nil {
 		a.dir = path.Join(a.dir, name)
+		a.depth++
 		return NodeDirectory{
 			Name:   a.dir,
 			UID:    entry.UID,
